@@ -101,7 +101,7 @@ func (b Behav) with(s string) Behav {
 type Call struct {
 	ID   string `json:"id"`
 	Name string `json:"name"`
-	K    int    `json:"k"` // arguments are {"k":K}; K indexes the behaviour table; -1 = malformed arguments
+	K    int    `json:"k"` // arguments are {"k":K}; K indexes the behaviour table; -1 = malformed arguments, -2 = the empty string
 	// an optional second argument field: arguments {"k":K,"s":S}; the tool appends S to its output (to the
 	// last chunk of a streamed output); "" = the field is left out of the arguments
 	S string `json:"s,omitempty"`
@@ -300,6 +300,9 @@ func (c *Case) graphOptions(nopts []compose.ToolsNodeOption) []compose.Option {
 
 // K = -1: arguments that no tool of the harness can parse (the tool fails before its body runs)
 func argsOf(k int, s string) string {
+	if k == -2 { // no arguments at all (what a model emits for a tool without parameters): not JSON, no tool can parse it
+		return ""
+	}
 	if k < 0 {
 		return `{"k":"x"}`
 	}
@@ -1879,8 +1882,8 @@ func genCase(r *lib.Rng, tier string) *Case {
 		}
 		c.Calls = append(c.Calls, cl)
 	}
-	if r.Chance(1, 25) { // arguments no tool can parse
-		c.Calls[r.Intn(n)].K = -1
+	if r.Chance(1, 25) { // arguments no tool can parse: malformed, or empty
+		c.Calls[r.Intn(n)].K = -1 - r.Intn(2)
 	}
 	if unknown && r.Chance(1, 2) { // make sure at least one unknown call exists
 		c.Calls[r.Intn(n)].Name = r.Pick(unknownNames)
@@ -1922,7 +1925,7 @@ func (engine) Decode(raw json.RawMessage) (any, error) {
 		return nil, err
 	}
 	for _, cl := range c.Calls {
-		if cl.K < -1 || cl.K >= len(c.Behavs) {
+		if cl.K < -2 || cl.K >= len(c.Behavs) {
 			return nil, fmt.Errorf("call refers to behaviour %d of %d", cl.K, len(c.Behavs))
 		}
 	}
